@@ -52,6 +52,9 @@ func runC04(p *Prog, r *Report) {
 	c17Immutable(p, r, "D6-nodes-immutable")
 	c04WhoInserts(p, r)
 	c04Materialise(p, r)
+	c04EmptyIsHistory(p, r, "D1-newest-wins")
+	r.Rule("D9-mode-preserved", "a node's mode is the tar entry's full mode")
+	c04FullMode(p, r, "D9-mode-preserved")
 }
 
 // c04Materialise: (a) an entry's handler (handleFile/handleDir/handleSymlink — the code that
@@ -538,10 +541,14 @@ func c04Requirer(p *Prog, r *Report) {
 
 // c04Omissions: in the fill routine every entry read from the tar reaches the insertion into the
 // views unless one of the sanctioned skip conditions holds.
-func c04Omissions(p *Prog, r *Report) {
+func c04Omissions(p *Prog, r *Report) { c04OmissionsAs(p, r, "D5-omissions") }
+
+// c04OmissionsAs: the same rule under another rule name (shared with C05: a tar entry that is dropped
+// never reaches the views the tracer compares).
+func c04OmissionsAs(p *Prog, r *Report, ruleName string) {
 	fn := p.Func(imgPkg, "fillChainLayersWithFilesFromTar")
 	if fn == nil {
-		r.Undecided("D5-omissions", "anchor:fillChainLayersWithFilesFromTar", "-", "not found")
+		r.Undecided(ruleName, "anchor:fillChainLayersWithFilesFromTar", "-", "not found")
 		return
 	}
 	fa := newFA(p, r, fn)
@@ -557,12 +564,12 @@ func c04Omissions(p *Prog, r *Report) {
 		}
 	})
 	if next == nil || fill == nil {
-		r.Fail("D5-omissions", fa.key+":anchors", p.Pos(fn.Pos()), "the fill routine does not read entries with tar.Reader.Next and hand nodes to fillChainLayersWithFileNode")
+		r.Fail(ruleName, fa.key+":anchors", p.Pos(fn.Pos()), "the fill routine does not read entries with tar.Reader.Next and hand nodes to fillChainLayersWithFileNode")
 		return
 	}
 	hdr := loopHeaderOf(next.Block())
 	if hdr == nil {
-		r.Fail("D5-omissions", fa.key+":loop", p.Pos(next.Pos()), "entries are not read in a loop")
+		r.Fail(ruleName, fa.key+":loop", p.Pos(next.Pos()), "entries are not read in a loop")
 		return
 	}
 	isClean := func(v ssa.Value) bool {
@@ -656,9 +663,9 @@ func c04Omissions(p *Prog, r *Report) {
 			cut = append(cut, ed)
 		}
 	}
-	fa.noPath("D5-omissions", "every-entry-reaches-the-views", pointOf(next), firstInstrOf(hdr), instrIs(fill), edgesOf(cut),
+	fa.noPath(ruleName, "every-entry-reaches-the-views", pointOf(next), firstInstrOf(hdr), instrIs(fill), edgesOf(cut),
 		"an entry is dropped only for: escaping name, '.'/'..' base, already present, unsupported type, failed handler, end of archive", "a tar entry can be dropped for a reason other than the sanctioned ones (escaping name, '.'/'..' base name, already present in the newest view, unsupported type, failed handler): e.g. filtering whiteouts by the file requirer makes deleted files reappear in later views")
 	r.Count("sanctioned skip edges", len(cut))
-	r.Instances("D5-omissions", "sanctioned skip edges in the fill routine", len(cut), 7)
+	r.Instances(ruleName, "sanctioned skip edges in the fill routine", len(cut), 7)
 	_ = fmt.Sprint
 }
